@@ -49,6 +49,7 @@ impl Monitor for C13 {
             "subset/ancestor_with_descendant",
             "subset/more_than_30_members",
             "member_is_modifier",
+            "user_defined_modifier_roots_and_categories",
             "member_is_obsolete",
             "member_names_replacement",
             "replacement_collides_with_member",
@@ -105,7 +106,24 @@ impl Monitor for C13 {
                 return out;
             }
         };
-        let m = Model::new(&view, true);
+        let mut m = Model::new(&view, true);
+        let mut ont = ont;
+        // a third of the ontologies get modifier roots and categories of the user's choosing (the two
+        // lists are independent of each other and of the default positions below HP:1 / HP:118)
+        if rng.chance(1, 3) {
+            let all: Vec<u32> = m.ids.iter().copied().collect();
+            let pick_some = |rng: &mut Rng, max: usize| -> BTreeSet<u32> {
+                let k = rng.urange(0, max.min(all.len()));
+                rng.sample_indices(all.len(), k).iter().map(|i| all[*i]).collect()
+            };
+            let mods = pick_some(&mut rng, 3);
+            let cats = pick_some(&mut rng, 5);
+            *ont.modifier_mut() = hpo::term::HpoGroup::from(mods.iter().copied().collect::<Vec<u32>>());
+            *ont.categories_mut() = hpo::term::HpoGroup::from(cats.iter().copied().collect::<Vec<u32>>());
+            m.modifier_roots = mods;
+            m.categories = cats;
+            out.bucket("user_defined_modifier_roots_and_categories");
+        }
         let flags: BTreeMap<u32, (bool, Option<u32>)> = view.terms.iter().map(|t| (t.id, (t.obsolete, t.replaced_by))).collect();
         let ids: Vec<u32> = m.ids.iter().copied().collect();
 
